@@ -79,7 +79,7 @@ def run(ctx):
     ctx.build(BIN)
     # --- the executable semantics: laws, and the codec model pinned to the loop condition of the code
     # --- the contract itself: what answers Decompress allows (must succeed / never wrong / stale may refuse)
-    ctx.tlc_mc("MC_CompressorFraming", workers=2, required_actions=("Compress", "Decompress", "Switch"),
+    ctx.tlc_mc("MC_CompressorFraming", workers=2, required_actions=("Compress", "Decompress"),
                note="laws of the framing contract: 3 frame ids x 2 payloads x 2 frames x 3 configuration epochs")
     deep = "_deep" if ctx.thorough else ""
     ctx.tlc_mc("MC_PaZipStream", cfg="MC_PaZipStream%s.cfg" % deep, workers=4,
